@@ -8,7 +8,7 @@ Open Scope list_scope.
 Open Scope N_scope.
 
 Definition frus : list N := [0; 255].
-Definition bytes_b : list N := [0; 128; 255].
+Definition bytes_b : list N := [0; 255].
 
 (* ---- fan level ---- *)
 (* reference BMC, for every state, FRU and level *)
@@ -126,7 +126,7 @@ Definition chk_led (x : N * N * N) (c : ledcase) : bool :=
                             (RBytes [0; 0; 3; 0; 0; 1; wf; wo; color]))
               (mkReq 44 8 0 [0; fru; led]) (Ok (led_result color (led_fn c) off on_)).
 
-Definition led_targets : list (N * N * N) := [(0, 1, 2); (254, 255, 15)].
+Definition led_targets : list (N * N * N) := [(254, 255, 15)].
 Definition led_cases : list ledcase :=
   [LOff; LOn] ++
   flat_map (fun off => map (fun on_ => LBlink off on_) [0; 255]) (map (fun i => i + 1) (nrange 249)) ++
